@@ -13,9 +13,9 @@ One(c) == LET N == N3(c)
           IN [loc |-> [i \in 1 .. Len(c.pts) |-> Flat(N, CartLocate(N, <<c.pts[i][1], c.pts[i][2], c.pts[i][3]>>))],
               ngb |-> [i \in 1 .. N[1] * N[2] * N[3] |->
                          LET cc == CellSeq(N)[i]
-                         IN <<<<1, -1, FlatOr(N, CartNgb(N, P3(c), cc, 1, -1))>>, <<1, 1, FlatOr(N, CartNgb(N, P3(c), cc, 1, 1))>>,
-                              <<2, -1, FlatOr(N, CartNgb(N, P3(c), cc, 2, -1))>>, <<2, 1, FlatOr(N, CartNgb(N, P3(c), cc, 2, 1))>>,
-                              <<3, -1, FlatOr(N, CartNgb(N, P3(c), cc, 3, -1))>>, <<3, 1, FlatOr(N, CartNgb(N, P3(c), cc, 3, 1))>> >>]]
+                         IN <<<<1, -1, FlatOr(N, CartNgb(N, P3(c), cc, 1, -1))>> \o NgbGeom(1, -1), <<1, 1, FlatOr(N, CartNgb(N, P3(c), cc, 1, 1))>> \o NgbGeom(1, 1),
+                              <<2, -1, FlatOr(N, CartNgb(N, P3(c), cc, 2, -1))>> \o NgbGeom(2, -1), <<2, 1, FlatOr(N, CartNgb(N, P3(c), cc, 2, 1))>> \o NgbGeom(2, 1),
+                              <<3, -1, FlatOr(N, CartNgb(N, P3(c), cc, 3, -1))>> \o NgbGeom(3, -1), <<3, 1, FlatOr(N, CartNgb(N, P3(c), cc, 3, 1))>> \o NgbGeom(3, 1) >>]]
 ASSUME \A i \in 1 .. Len(Cases) : UniqueCell(N3(Cases[i])) /\ Mutual(N3(Cases[i]), P3(Cases[i]))
 ASSUME PrintT(<<"CART", ToJson([i \in 1 .. Len(Cases) |-> One(Cases[i])])>>)
 VARIABLE x
